@@ -65,6 +65,7 @@ def jOp (j : Json) : Except String Op := do
   match a.toList with
   | [.str "ask", n, f, r] => return .ask (← jNat n) (← jBool f) (← jBool r)
   | [.str "tell", f] => return .tell (← jBool f)
+  | [.str "refresh", f] => return .refresh (← jBool f)
   | _ => throw "bad op"
 
 def handle (j : Json) : Except String Json := do
